@@ -42,6 +42,17 @@ func c03(p *core.Prog, r *core.Report) {
 	// the guarded table, all of which peer-driven code reaches (unknown
 	// service names, new exchanges, relay items, introspection requests), are
 	// only touched with their lock held in the right mode (shared with C04-R1)
+	// an inbound exchange that stays registered after a failed admission
+	// wedges the reader (its frames fill the exchange's queue) and the close;
+	// a lazy relay parser that disagrees with the frame layout indexes past
+	// what it validated (shared with C11-R1 and C08-R4)
+	r.Rule("C03-R7", "E6 paths / E5 layout", 5, "failed call admission removes the exchange; lazy parsers agree with the specified layouts (shared with C11, C08)")
+	r.Alias("C11-R1", "C03-R7")
+	c11Exchanges(p, r)
+	r.Alias("C11-R1", "")
+	r.Alias("C08-R4", "C03-R7")
+	c08Lazy(p, r)
+	r.Alias("C08-R4", "")
 	r.Rule("C03-R6", "E4 locksets", 20, "guarded maps are accessed under their lock (a concurrent map access aborts the process)")
 	guardedAccesses(p, r, p.ComputeLocks(), "C03-R6", func(typ, field string, fld *types.Var) bool {
 		_, isMap := fld.Type().Underlying().(*types.Map)
